@@ -76,10 +76,11 @@ Fixpoint dec_regions (n : nat) (l : list tok) : option (list region * list tok) 
   | O => Some ([], l)
   | S k => match l with
            | TL [st; sz; ps; tr] :: r =>
-               if (ps =? 0) || (1000000 <? sz) then None else
+               (* flavour 7 = the bitmap of the crate's default constructors (NewBitmap::with_len): one bit per host page *)
+               if (ps =? 0) || (1000000 <? sz) || ((tr =? 7) && negb (ps =? 4096)) then None else
                match dec_regions k r with
                | Some (rs, rest) =>
-                   Some ({| r_start := st; r_size := sz; r_ps := ps; r_tracked := (tr =? 1) || (tr =? 2) || (tr =? 3) || (tr =? 5) || (tr =? 6);
+                   Some ({| r_start := st; r_size := sz; r_ps := ps; r_tracked := (tr =? 1) || (tr =? 2) || (tr =? 3) || (tr =? 5) || (tr =? 6) || (tr =? 7);
                             r_dirty := repeat false (N.to_nat (npages sz ps)) |} :: rs, rest)
                | None => None end
            | _ => None end
